@@ -2670,6 +2670,11 @@ func (p *Parser) testExprBinary(pastAndOr bool) TestExpr {
 	p.got(_Newl)
 	switch p.tok {
 	case andAnd, orOr:
+		if pastAndOr {
+			// && and || bind less tightly than ! and than any other operator:
+			// they are taken by the caller.
+			return left
+		}
 	case _LitWord:
 		if p.val == "]]" {
 			return left
@@ -2736,7 +2741,8 @@ func (p *Parser) testExprUnary() TestExpr {
 	case exclMark:
 		u := &UnaryTest{OpPos: p.pos, Op: TsNot}
 		p.next()
-		if u.X = p.testExprBinary(false); u.X == nil {
+		// ! applies to the next term only: [[ ! a && b ]] is [[ (! a) && b ]]
+		if u.X = p.testExprBinary(true); u.X == nil {
 			p.followErrExp(u.OpPos, u.Op)
 		}
 		return u
